@@ -68,7 +68,8 @@ def mk(rng, kind=None):
         cuts.discard(sum(len(h) + len(b) for h, b in reqs[:k]))
     cuts = sorted(c for c in cuts if 0 < c < len(stream))
     script = [stream[a:b] for a, b in zip([0] + cuts, cuts + [len(stream)])]
-    return {'case': {'script': [s.hex() for s in script], 'canon': [s.hex() for s in canon], 'eof': True, 'class': classify(reqs, script), 'kind': kind}}
+    cls = classify(reqs, script)
+    return {'case': {'script': [s.hex() for s in script], 'canon': [s.hex() for s in canon], 'eof': True, 'class': cls, 'kind': kind, 'real': cls == 'supported' and rng.random() < 0.04}}
 
 
 def corpus():
@@ -109,6 +110,11 @@ def judge(case, out, m):
         why = f'{len(out.get("responses", []))} response(s) under this segmentation, {len(canon.get("responses", []))} under one read per request (class {case["class"]}, end {out.get("end")})'
         if case['class'] == 'supported': v.append(('violation', why))
         else: v.append(('violation', why, 'KF-C06-' + case['class'].replace('_', '-')))
+    if 'real' in out and not v:
+        # a few supported segmentations also go through the real Session::manage over loopback TCP (hook H6), one write per segment
+        if 'panic' in out['real']: v.append(('violation', 'the real session loop panicked: ' + str(out['real'])[:160]))
+        elif unhx(out['real']['all']) != b''.join(unhx(r) for r in out['responses']):
+            v.append(('violation', f'Session::manage over loopback TCP writes {len(unhx(out["real"]["all"]))} bytes under this segmentation, the canonical answers are {sum(len(unhx(r)) for r in out["responses"])} bytes'))
     if m is not None:
         mm = m.get('model', {})
         if mm.get('responses') != out.get('responses') or mm.get('end') != out.get('end'):
